@@ -215,9 +215,13 @@ def read_eps(text):
                     cur = (x, y)
                 elif op == 'rmoveto':
                     dy, dx = stack.pop(), stack.pop()
+                    if not isinstance(cur, tuple):
+                        raise Malformed('rmoveto without a current point (nocurrentpoint)')
                     cur = (cur[0] + dx, cur[1] + dy)
                 elif op == 'rlineto':
                     dy, dx = stack.pop(), stack.pop()
+                    if not isinstance(cur, tuple):
+                        raise Malformed('rlineto without a current point (nocurrentpoint)')
                     nxt = (cur[0] + dx, cur[1] + dy)
                     path.append((cur, nxt))
                     cur = nxt
@@ -225,6 +229,7 @@ def read_eps(text):
                     for (a, b) in path:
                         doc.segs.append((a[0] * ctm, H - a[1] * ctm, b[0] * ctm, H - b[1] * ctm, 1.0 * ctm, colour, None))
                     path = []
+                    cur = None          # stroke performs an implicit newpath: the current point becomes undefined
                     stroked = True
                 else:
                     raise Malformed('operator %r' % op)
